@@ -11,9 +11,29 @@ Driver for C11.
 namespace BrushVerif.Drv.C11
 open BrushVerif.Wire BrushVerif.Pipe
 
-/-- the payload both sides generate: lines of `w` bytes (letters a..y, then newline), last byte newline -/
+/-- bytes of the character used in multi-byte mode `m` (é, €, 😀) -/
+def mbByte (m k : Nat) : Nat :=
+  if m = 2 then (if k = 0 then 195 else 169)
+  else if m = 3 then (if k = 0 then 226 else if k = 1 then 130 else 172)
+  else (if k = 0 then 240 else if k = 1 then 159 else if k = 2 then 152 else 128)
+
+/-- the payload both sides generate: lines of `w` bytes, last byte newline.  `seed < 100`: letters
+a..y.  `seed = 100*m + s` (m = 2, 3, 4): each line is `q % m` letters `a` (q = line number, so that
+the characters sit at every phase) followed by m-byte UTF-8 characters, padded with `x` where a whole
+character no longer fits before the newline. -/
 def payloadByte (len w seed i : Nat) : Nat :=
-  if (i + 1) % w = 0 ∨ i + 1 = len then 10 else 97 + ((i * 7 + (i / w) * 3 + seed) % 25)
+  if (i + 1) % w = 0 ∨ i + 1 = len then 10
+  else
+    let m := seed / 100
+    if m = 0 then 97 + ((i * 7 + (i / w) * 3 + seed) % 25)
+    else
+      let q := i / w
+      let j := i % w
+      let content := min w (len - q * w) - 1
+      let off := q % m
+      if j < off then 97
+      else if ((j - off) / m + 1) * m + off ≤ content then mbByte m ((j - off) % m)
+      else 120
 
 def payloadGo (len w seed : Nat) : Nat → List Nat → List Nat
   | 0, acc => acc
